@@ -159,6 +159,7 @@ structure Drv where
   rmss : List (Word × Nat × Nat) := []
   uppers : List Word := []
   exit : ExitSt := {}
+  up : Bool := true
   px : Option (St PSt) := none
   rcd : RecSt := { last := 0 }
   now : Nat := 0
@@ -491,7 +492,7 @@ def handleSt (d : Drv) (line : String) : Drv × String :=
   | ["quote", h] => (d, doQuote h)
   | "rfb-recv" :: args => doRfbRecv d args
   | "rfb-vmrecv" :: args => doRfbVmRecv d args
-  | ["app-reset"] => ({ d with imgs := [], pauses := [], rmss := [], uppers := [], app := none, exit := {} }, "ok")
+  | ["app-reset"] => ({ d with imgs := [], pauses := [], rmss := [], uppers := [], app := none, exit := {}, up := true }, "ok")
   | ["app-img", f, w, h, hist] =>
     match wordOfHex f with
     | some f =>
@@ -514,7 +515,7 @@ def handleSt (d : Drv) (line : String) : Drv × String :=
     | none => (d, "bad-op")
   | "app-new" :: dl :: fc :: inc :: cmds =>
     match dl.toNat?, parseBool? fc, parseBool? inc, cmds.mapM parseCmdTok with
-    | some dl, some fc, some inc, some cs => ({ d with app := some { env := mkEnv d dl fc inc, cmds := cs }, exit := {} }, "ok")
+    | some dl, some fc, some inc, some cs => ({ d with app := some { env := mkEnv d dl fc inc, cmds := cs }, exit := {}, up := true }, "ok")
     | _, _, _, _ => (d, "bad-op")
   | ["app-fire"] =>
     match d.app, d.rfb with
@@ -548,11 +549,20 @@ def handleSt (d : Drv) (line : String) : Drv × String :=
       let e? : Option ExitEv := match ev with
         | "connectfailed" => some .connectFailed | "lost-clean" => some (.lost true) | "lost-error" => some (.lost false)
         | "timeout" => some .timeout | _ => none
-      match e? with
-      | some e =>
+      match e?, d.rfb with
+      | some .connectFailed, _ =>
+        let x := exitStep a.completed d.exit a.now .connectFailed
+        ({ d with exit := x }, s!"status={x.status} stop={match x.stopAt with | some t => toString t | none => "none"}")
+      | some e, some st =>
+        -- the process model of VncModel/System.lean (object of VncProofs/SystemExit.lean)
+        let pin : ProcIn := match e with | .lost c => .lost c | _ => .timeout
+        let p := (procStep { st := ⟨⟨st.s, d.cv, a⟩, st.buf⟩, exit := d.exit, up := d.up } pin).1
+        ({ d with exit := p.exit, up := p.up },
+          s!"status={p.exit.status} stop={match p.exit.stopAt with | some t => toString t | none => "none"}")
+      | some e, none =>
         let x := exitStep a.completed d.exit a.now e
         ({ d with exit := x }, s!"status={x.status} stop={match x.stopAt with | some t => toString t | none => "none"}")
-      | none => (d, "bad-op")
+      | none, _ => (d, "bad-op")
     | none => (d, "bad-op")
   | ["app-now", t] =>
     match d.app, t.toNat? with
